@@ -58,6 +58,10 @@ impl<K> KeyDate<K> {
     pub(crate) fn key(&self) -> &Arc<K> {
         &self.key
     }
+
+    pub(crate) fn entry_info(&self) -> &EntryInfo<K> {
+        &self.entry_info
+    }
 }
 
 pub(crate) struct KeyHashDate<K> {
